@@ -68,8 +68,11 @@ package olla
 //@   requires w != nil
 //@   requires resp != nil && resp.Body != nil
 //@   requires rlog != nil
-//@   modifies ghost(w).started, ghost(w).status, gvar unflushed, gvar evBroken, gvar streamMode, ghost remaining, ghost backing
+//@   modifies ghost(w).started, ghost(w).status, gvar unflushed, gvar wBytes, gvar rBytes, gvar evBroken, gvar streamMode, ghost remaining, ghost backing
 //@   loop 1 invariant isStreaming == streamMode
+// C18 / C02: a relay that completes (nil error) with the client still there has written exactly the bytes it read
+//@   loop 1 invariant state.clientDisconnected || wBytes - old(wBytes) == rBytes - old(rBytes)
+//@   at return 2 assert state.clientDisconnected || wBytes - old(wBytes) == rBytes - old(rBytes)
 //@   loop 1 invariant (old(ghost(w).started) ==> ghost(w).started) && (old(evBroken) ==> evBroken) && state != nil && fresh(state) && rc != nil && readDeadline != nil
 //@   loop 1 invariant isStreaming ==> unflushed == 0 || unflushed == old(unflushed) || evBroken
 //@   ensures old(ghost(w).started) ==> ghost(w).started
@@ -80,12 +83,14 @@ package olla
 //@   safety
 //@   requires s != nil && s.BaseProxyComponents != nil && state != nil && rlog != nil
 //@   modifies state.clientDisconnected, state.disconnectTime
+//@   ensures state.clientDisconnected
 //@ func (s *Service) checkContexts
 //@   property C18 C02
 //@   safety
 //@   requires s != nil && s.BaseProxyComponents != nil && s.configuration != nil && state != nil && rlog != nil && readDeadline != nil
 //@   modifies state.clientDisconnected, state.disconnectTime
 //@   ensures !errorsAs(res, "*core.ResponseStartedError") && !errorsIs(res, core.ErrCircuitOpen)
+//@   ensures old(state.clientDisconnected) ==> state.clientDisconnected
 
 //@ func (s *Service) prepareProxyRequest
 //@   property C01 C15
@@ -125,10 +130,11 @@ package olla
 //@   property C18
 //@   safety
 //@   requires w != nil && rc != nil
-//@   modifies ghost(w).started, ghost(w).status, gvar unflushed, gvar evBroken
+//@   modifies ghost(w).started, ghost(w).status, gvar unflushed, gvar wBytes, gvar evBroken
 //@   ensures old(evBroken) ==> evBroken
 //@   ensures isStreaming && res1 == nil ==> unflushed == 0 || evBroken
 //@   ensures res1 == nil ==> ghost(w).started
+//@   ensures wBytes == old(wBytes) + res0 && res0 >= 0 && (res1 == nil ==> res0 == len(data)) && !errorsIs(res1, io.EOF)
 //@   ensures old(ghost(w).started) ==> ghost(w).started
 //@   ensures !errorsAs(res1, "*core.ResponseStartedError") && !errorsIs(res1, core.ErrCircuitOpen)
 
@@ -140,9 +146,14 @@ package olla
 //@   property C18
 //@   safety
 //@   requires s != nil && resp != nil && resp.Body != nil && state != nil && w != nil && rc != nil && rlog != nil
-//@   modifies ghost(w).started, ghost(w).status, gvar unflushed, gvar evBroken, state.lastChunk, state.lastChunkBuf, state.totalBytes, state.bytesAfterDisconnect, ghost remaining, ghost backing
+//@   modifies ghost(w).started, ghost(w).status, gvar unflushed, gvar wBytes, gvar rBytes, gvar evBroken, state.lastChunk, state.lastChunkBuf, state.totalBytes, state.bytesAfterDisconnect, ghost remaining, ghost backing
 //@   ensures old(evBroken) ==> evBroken
 //@   ensures isStreaming && res == nil ==> unflushed == 0 || unflushed == old(unflushed) || evBroken
+// the relay step: unless the client is gone, what was read has been handed to the client's writer when the step does
+// not end in a write error (EOF with a last chunk included)
+//@   ensures state.clientDisconnected == old(state.clientDisconnected)
+//@   ensures !state.clientDisconnected && (res == nil || errorsIs(res, io.EOF)) ==> wBytes - old(wBytes) == rBytes - old(rBytes)
+//@   ensures rBytes >= old(rBytes) && wBytes >= old(wBytes)
 //@   ensures old(ghost(w).started) ==> ghost(w).started
 //@   ensures !errorsAs(res, "*core.ResponseStartedError") && !errorsIs(res, core.ErrCircuitOpen)
 
